@@ -31,6 +31,7 @@ REQUIRED_PROBES = ["none_grid_after_foreign_write", "dict_other_zone", "numeric_
                    "setup_after_failed_split", "inner_asset_after_structured", "serialise_after_chp_setup"]
 
 JUDGED = ("a.setup", "P.setup", "P.split", "P.samples", "g.v2g", "g.p2g")
+FRESH_PROCESS = True   # every run in a forked child of a parent that never executes EAO code (see control calls)
 
 # --------------------------------------------------------------------------- world + plan generation
 
@@ -113,6 +114,11 @@ def gen_world(rng, opts):
             extra.append(specs.gen_market(env, rng.choice(nodes)))
         if rng.random() < 0.4:
             extra.append(specs.gen_simple_contract(env, rng.choice(nodes), f0))
+        rest = [a for a in p0_assets if a not in sub]
+        if rest and rng.random() < 0.5:
+            sib = specs.same_name_sibling(env, rng.choice(rest))   # same name as an asset of P0, other numbers
+            if sib is not None:
+                extra.append(sib)
         pid = env.new_id("P")
         w["portfolios"][pid] = {"assets": sub + extra}
         tops.append(pid)
@@ -959,12 +965,55 @@ class Exec:
                 pass
         self.events.append({"step": i, "op": op, "out": out})
 
+    def control(self, pristine=False):
+        """Control calls: every top-level portfolio of the world set up on *fresh* objects.  Run once before the
+        history (process state as after import) and once after it: a difference means the history changed what
+        even brand-new objects build - state kept at module or class level (mutable defaults, caches keyed by
+        name ...), which the fresh twin alone cannot see because it lives in the same process."""
+        out = {}
+        grids = sorted(self.w["grids"], key=lambda g: int(g[1:]))
+        g = grids[0]
+        pr = [p for p in sorted(self.w["prices"], key=lambda p: int(p[1:])) if self.w["prices"][p]["grid"] == g and self.w["prices"][p]["form"] == "dict_nd"]
+        if not pr:
+            return out
+        def one(P):
+            B = specs.Builder(self.w)
+            o = _call(lambda: B.portfolio(P).setup_optim_problem(B.prices(pr[0]), B.grid(g)))
+            return ("raise", canon.exc_sig(o.exc)) if o.exc is not None else ("ok", canon.canon_op(o.val))
+        for P in top_portfolios(self.w)[:3]:
+            if pristine and not self.plan.get("_no_fork_control"):
+                # each control result comes from its own child of the still pristine run process, so that not even the
+                # other control calls share module state with it
+                out[P] = core.in_child(one, P)
+                if isinstance(out[P], dict) and out[P].get("harness_error"):
+                    raise core.HarnessError(out[P]["harness_error"])
+            else:
+                out[P] = one(P)
+        return out
+
     def run(self):
         with core.quiet():
+            ctrl0 = self.control(pristine=True)
             for i, st in enumerate(self.plan["plan"]):
                 self.step(i, st)
                 if self.violation is not None:
                     break
+            if self.violation is None:
+                ctrl1 = self.control()
+                self.stats["control_calls"] = self.stats.get("control_calls", 0) + len(ctrl1)
+                for P in ctrl0:
+                    a, b = ctrl0[P], ctrl1.get(P)
+                    d = None
+                    if b is None or a[0] != b[0]:
+                        d = "before the history: %s, after it: %s" % (a[0], None if b is None else b[0])
+                    elif a[0] == "ok":
+                        d = canon.diff_canon(b[1], a[1])
+                    if d:
+                        self.violation = {"clause": "fresh-objects-affected-by-history", "field": _field(d), "step": len(self.plan["plan"]),
+                                          "op": "control:P.setup", "detail": "set-up of portfolio %s on brand-new objects differs after the history from "
+                                          "the same set-up before it (state kept at module / class level): %s" % (P, d)}
+                        self.violation["signature"] = "%s|%s|%s|%s" % (ID, self.violation["clause"], self.violation["op"], self.violation["field"])
+                        break
         return self.result()
 
     def result(self):
